@@ -170,3 +170,83 @@ pub fn drive_products(args: &[String]) {
     }
     d.finish(arg(args, "--summary"));
 }
+
+// ---------------------------------------------------------------------------
+// C06: determinants and the three inverse functions
+
+macro_rules! dets {
+    ($d:expr, $T:ty, $M:ident, $n:expr) => {{
+        let d: &mut Drv = $d;
+        let a: Vec<Vec<$T>> = d.matn($n);
+        let lane = <$T as Lane>::NAME;
+        let (ar, ac) = (rm::$M::<$T>::from_rows(&a), cm::$M::<$T>::from_rows(&a));
+        d.call("det", || json!({"a": evm(&a), "lane": lane, "lay": "r"}), || ev(ar.determinant()));
+        d.call("det", || json!({"a": evm(&a), "lane": lane, "lay": "c"}), || ev(ac.determinant()));
+        // after a transposition and a layout change (the abstract operand is then a^T resp. a)
+        d.call("det", || json!({"a": evm(&rm::$M::<$T>::from_rows(&a).transposed().rows()), "lane": lane, "lay": "rT"}), || ev(ar.transposed().determinant()));
+        d.call("det", || json!({"a": evm(&a), "lane": lane, "lay": "r>c"}), || ev(cm::$M::<$T>::from(ar).determinant()));
+        d.call("det", || json!({"a": evm(&a), "lane": lane, "lay": "c>r"}), || ev(rm::$M::<$T>::from(ac).determinant()));
+    }};
+}
+
+fn inverses(d: &mut Drv) {
+    type R = rm::Mat4<Q>;
+    type C = cm::Mat4<Q>;
+    // general inverse: random small rational matrices; every third one sparse / structured
+    let k = d.pick(4);
+    let a: Vec<Vec<Q>> = match k {
+        0 => { let r = rot3(&mut d.rng); let s: Vec<Q> = (0..3).map(|_| nzq(&mut d.rng)).collect(); let t: Vec<Q> = (0..3).map(|_| smallq(&mut d.rng)).collect(); trs4(&r, &s, &t) }
+        1 => { let mut m: Vec<Vec<Q>> = d.matn(4); for i in 0..4 { for j in 0..4 { if d.pick(3) == 0 { m[i][j] = Q::int(0); } } } m }
+        _ => d.matn(4),
+    };
+    let (ar, ac) = (R::from_rows(&a), C::from_rows(&a));
+    let arg = |lay: &str| json!({"a": evm(&a), "lane": "q", "lay": lay});
+    d.call("inv", || arg("r"), || em(&ar.inverted()));
+    d.call("inv", || arg("c"), || em(&ac.inverted()));
+    d.call("inv", || arg("r="), || { let mut m = ar; m.invert(); em(&m) });
+    d.call("inv", || arg("c="), || { let mut m = ac; m.invert(); em(&m) });
+    // rigid: rotation + translation
+    let r = rot3(&mut d.rng);
+    let t: Vec<Q> = (0..3).map(|_| smallq(&mut d.rng)).collect();
+    let one = [Q::int(1); 3];
+    let g = trs4(&r, &one, &t);
+    let (gr, gc) = (R::from_rows(&g), C::from_rows(&g));
+    let arg = |lay: &str| json!({"a": evm(&g), "lane": "q", "lay": lay});
+    d.call("inv_rigid", || arg("r"), || em(&gr.inverted_affine_transform_no_scale()));
+    d.call("inv_rigid", || arg("c"), || em(&gc.inverted_affine_transform_no_scale()));
+    d.call("inv_rigid", || arg("r="), || { let mut m = gr; m.invert_affine_transform_no_scale(); em(&m) });
+    d.call("inv_rigid", || arg("c="), || { let mut m = gc; m.invert_affine_transform_no_scale(); em(&m) });
+    // the general and the affine inverse agree on rigid matrices too
+    d.call("inv", || arg("r/rigid"), || em(&gr.inverted()));
+    d.call("inv_affine", || arg("c/rigid"), || em(&gc.inverted_affine_transform()));
+    // affine: translation * rotation * scale, scales in +-{1/8 .. 8}
+    let s: Vec<Q> = (0..3).map(|_| scaleq(&mut d.rng)).collect();
+    let h = trs4(&r, &s, &t);
+    let (hr, hc) = (R::from_rows(&h), C::from_rows(&h));
+    let arg = |lay: &str| json!({"a": evm(&h), "lane": "q", "lay": lay});
+    d.call("inv_affine", || arg("r"), || em(&hr.inverted_affine_transform()));
+    d.call("inv_affine", || arg("c"), || em(&hc.inverted_affine_transform()));
+    d.call("inv_affine", || arg("r="), || { let mut m = hr; m.invert_affine_transform(); em(&m) });
+    d.call("inv_affine", || arg("c="), || { let mut m = hc; m.invert_affine_transform(); em(&m) });
+    d.call("inv", || arg("c/trs"), || em(&hc.inverted()));
+}
+
+pub fn drive_detinv(args: &[String]) {
+    let n: usize = arg_or(args, "--n", "30").parse().unwrap();
+    let seed: u64 = arg_or(args, "--seed", "1").parse().unwrap();
+    let lane = arg_or(args, "--lane", "q");
+    let mut d = Drv::new(&arg(args, "--out").expect("--out"), seed);
+    for _ in 0..n {
+        match lane.as_str() {
+            "q" => {
+                dets!(&mut d, Q, Mat2, 2); dets!(&mut d, Q, Mat3, 3); dets!(&mut d, Q, Mat4, 4);
+                inverses(&mut d);
+            }
+            _ => {
+                dets!(&mut d, i64, Mat2, 2); dets!(&mut d, i32, Mat3, 3); dets!(&mut d, i64, Mat4, 4);
+                dets!(&mut d, f64, Mat2, 2); dets!(&mut d, f32, Mat3, 3); dets!(&mut d, f64, Mat4, 4);
+            }
+        }
+    }
+    d.finish(arg(args, "--summary"));
+}
